@@ -22,6 +22,9 @@ package memberlist
 //@   requires nk: 0 <= n && n <= k && k >= 1
 //@   requires mm: 0 <= min && min <= max
 //@   ensures lower [C06]: result + elapsed >= min
+//@   ensures upper [C06]: result + elapsed <= max
+//@   ensures atk [C06]: n == k ==> result + elapsed == min
+//@   ensures at0 [C06]: n == 0 ==> result + elapsed >= max - 1000000
 
 // ---------------------------------------------------------------------
 // Shared vocabulary (DESIGN §4)
@@ -288,7 +291,7 @@ package memberlist
 
 // ackLock: every registered handler is a live object with an ack callback and a reaping timer.
 //@ lock Memberlist.ackLock recv m
-//@   protects map map[uint32]*ackHandler, ackHandler.*
+//@   protects map map[uint32]*ackHandler
 //@   inv AH1 [C13,C19,C20]: forall q uint32 :: has(m.ackHandlers, q) ==> allocated(m.ackHandlers[q]) && m.ackHandlers[q].ackFn != nil
 //@   inv AH2 [C13,C19,C20]: forall q uint32 :: has(m.ackHandlers, q) ==> m.ackHandlers[q].timer != nil
 
@@ -538,6 +541,7 @@ package memberlist
 //@ func (*Memberlist).verifyProtocol(m, remote)
 //@   safety [C13,C09]
 //@   modular
+//@   monitor Memberlist.nodeLock
 //@   requires ok: mlNet(m)
 //@   assigns nothing
 //@   loop #1 invariant r1 [C09]: F1(remote, rangeindex, maxpmin, minpmax, maxdmin, mindmax)
